@@ -167,7 +167,7 @@ def plan(tier, seed):
         shards = 1 if n < 2 else nshards
         for i in range(shards):
             tasks.append({"engine": "ctor", "n": n, "index": i, "count": shards})
-    examples = 60 if tier == "quick" else 800
+    examples = 150 if tier == "quick" else 800
     for i in range(nshards):
         tasks.append({"engine": "hyp", "examples": examples, "seed": seed * 1000 + i})
     return tasks
